@@ -168,9 +168,12 @@ class BaseMove(Generic[OperationType, ContextType]):
         if "operation" in kwargs:
             operation_data = kwargs["operation"]
 
-            operation_class: type[Operation] = get_typed_class(
-                operation_data["name"], Operation
-            )
+            try:
+                operation_class: type[Operation | Integrator] = get_typed_class(
+                    operation_data["name"], Operation
+                )
+            except TypeError:
+                operation_class = get_typed_class(operation_data["name"], Integrator)
 
             kwargs["operation"] = operation_class.from_dict(operation_data)
 
